@@ -250,6 +250,58 @@ def c_reuse(ctx, case):
                          finding=twin_finding(exprs[:i + 1], rerun))
 
 
+@check("C02.recover")
+def c_recover(ctx, case):
+    """One evaluator, three steps: an evaluation FAILS inside a common subexpression (division
+    by zero, a variable not bound yet, a function of the caller that raises) and the caller
+    catches it; asked again it fails again (an error never turns into a value); then the caller
+    repairs the binding in its context and the same evaluator gives the value."""
+    shape, repair = case
+    XV, YV, QV = p.Variable("x"), p.Variable("y"), p.Variable("q_late")
+    fcall = p.Call(p.Variable("f_raises_once"), (YV,))
+    inner = {"zdiv": p.Quotient(YV, XV), "rem": p.Remainder(YV, XV), "unbound": p.Sum((QV, YV)),
+             "callback": p.Sum((fcall, 1)), "pow": p.Power(XV, -1)}[shape]
+    w = p.CommonSubexpression(inner, "w")
+    exprs = [p.Sum((w, 3)), w, p.Product((w, w, YV)), p.Sum((p.CommonSubexpression(p.Product((w, 2))), YV))]
+
+    class Boom(Exception):
+        pass
+    for cls in (EvaluationMapper, CachedEvaluationMapper):
+        state = {"raise": True}
+
+        def f_raises_once(v, state=state):
+            if state["raise"]:
+                raise Boom()
+            return v + 10
+        live = {"x": 0, "y": 7, "f_raises_once": f_raises_once}
+        m = cls(live)
+        for e in exprs:
+            ctx.case(None)
+            ctx.count("failure_then_repair_histories")
+            first = refsem.outcome(lambda: m(e), (*UNK, Boom))
+            again = refsem.outcome(lambda: m(e), (*UNK, Boom))
+            if first[0] == "v" or again[0] == "v" or first != again:
+                ctx.fail("C02.recover", case, f"recover:{cls.__name__}:error-became-a-value",
+                         f"{cls.__name__} on {e} with x = 0 / q_late unbound / a raising function: "
+                         f"first {short(first)}, asked again {short(again)}")
+                return
+        if cls is CachedEvaluationMapper and shape in ("zdiv", "rem", "pow"):
+            continue    # (the memoizing evaluator rightly remembers x = 0: its context is fixed)
+        live.update(repair)
+        state["raise"] = False
+        ref_env = dict(live, f_raises_once=lambda v: v + 10)
+        for e in exprs:
+            want = refsem.outcome(lambda: refsem.ev(e, ref_env), UNK)
+            got = refsem.outcome(lambda: m(e), (*UNK, Boom))
+            ctx.count("evaluations_after_repair")
+            if not _strict_same(got, want):
+                ctx.fail("C02.recover", case, f"recover:{cls.__name__}:after-repair",
+                         f"{cls.__name__}: {e} failed ({shape}) and was caught; after the caller "
+                         f"repaired its context ({repair}) the same evaluator gives {short(got)}, "
+                         f"expected {short(want)}")
+                return
+
+
 X_ = p.Variable("x")
 
 
@@ -606,6 +658,11 @@ def workload(ctx):
                 if ctx.mine("reentrant"):
                     ctx.case(("reentrant", i, inner_x), True, n=0)
                     ctx.run("C02.reentrant", (outer, inner, inner_x))
+        for shape in ("zdiv", "rem", "unbound", "callback", "pow"):
+            for repair in ({"x": 3, "q_late": 5}, {"x": F(1, 2), "q_late": -2}, {"x": -4, "q_late": 0}):
+                if ctx.mine("recover"):
+                    ctx.case(("recover", shape, str(repair)), True, n=0)
+                    ctx.run("C02.recover", (shape, repair))
         for which in ("exact", "abstract"):
             for shape in range(8):
                 if ctx.mine("registered"):
@@ -696,6 +753,7 @@ def workload(ctx):
             ctx.count("handler:" + k, v)
     ctx.floor("registered_constant_evaluations", 150)
     ctx.floor("reentrant_evaluations", 150)
+    ctx.floor("evaluations_after_repair", 60)
     ctx.floor("typed_twin_cases", 100)
     ctx.floor("tuple_index_subscripts", 300)
     ctx.floor("variant:plain", 1000)
